@@ -161,6 +161,11 @@ namespace ip {
 			m_forwarder.reset();
 		}
 
+		// datagrams that were received but not read are discarded with the
+		// socket, they must not show up if it's opened again
+		m_incoming_queue.clear();
+		m_queue_size = 0;
+
 		cancel(ec);
 	}
 	catch (std::bad_alloc const&)
